@@ -2,6 +2,7 @@ import QR.Model.QRObject
 import QR.Proofs.Except
 import QR.Proofs.History
 import QR.Proofs.SourceTie
+import QR.Proofs.Pinned
 /-
 C18 - out-of-range settings are rejected, in-range settings accepted (all integers), and nothing is produced under an
 out-of-range setting (invariant over operation sequences of any length).
@@ -134,5 +135,9 @@ theorem C18_source_validators (x : Int) :
     (checkBorder x = if Gen.Code.check_border_bad x then .error .valueError else .ok ()) ∧
     (checkMaskPattern (some x) = if Gen.Code.check_mask_pattern_bad x then .error .valueError else .ok ()) :=
   ⟨QR.SourceTie.checkVersion_eq x, QR.SourceTie.checkBoxSize_eq x, QR.SourceTie.checkBorder_eq x, QR.SourceTie.checkMask_eq x⟩
+
+/-- the Python functions this property's model mirrors have, in /repo's current working tree, exactly the normalised
+    ASTs the model was written and validated against (fingerprints regenerated by T1 on every run) -/
+theorem C18_source_fingerprints : QR.Gen.fp_C18 = QR.Pinned.fp_C18 := by decide
 
 end QR.Props
